@@ -49,6 +49,14 @@ Theorem C20_state_guards_conservative : state_guards_conservative_stmt.
 Proof. exact state_guards_conservative. Qed.
 Print Assumptions C20_state_guards_conservative.
 
+Theorem C20_state_count_refused_iff : state_count_refused_iff_stmt.
+Proof. exact state_count_refused_iff. Qed.
+Print Assumptions C20_state_count_refused_iff.
+
+Theorem C20_state_count_boundary : state_count_boundary_stmt.
+Proof. exact state_count_boundary. Qed.
+Print Assumptions C20_state_count_boundary.
+
 Theorem C20_cell_roundtrip : cell_roundtrip_stmt.
 Proof. exact cell_roundtrip. Qed.
 Print Assumptions C20_cell_roundtrip.
@@ -86,6 +94,10 @@ Print Assumptions C20_construction_narrow_same_or_refused.
 Theorem C20_refusal_is_storage_check : refusal_is_storage_check_stmt.
 Proof. exact refusal_is_storage_check. Qed.
 Print Assumptions C20_refusal_is_storage_check.
+
+Theorem C20_construction_state_count_refused : construction_state_count_refused_stmt.
+Proof. exact construction_state_count_refused. Qed.
+Print Assumptions C20_construction_state_count_refused.
 
 Theorem C20_construction_width_total : construction_width_total_stmt.
 Proof. exact construction_width_total. Qed.
